@@ -36,6 +36,8 @@ TNext ==
     \/ (Is("SMove") /\ UNCHANGED <<hvars, made>> /\ UNCHANGED migtgt)
     \* migration requests for the ULT of a main scheduler are rejected (invalid work unit)
     \/ (Is("SchedMig") /\ Ev.r1 = 1 /\ Ev.r2 = 1 /\ UNCHANGED <<hvars, made>> /\ UNCHANGED migtgt)
+    \/ (Is("UReviveCall") /\ ReviveCall(Ev.t) /\ UNCHANGED made /\ UNCHANGED migtgt)
+    \/ (Is("URevive") /\ ReviveRet(Ev.t, Ev.ret = 0) /\ UNCHANGED made /\ UNCHANGED migtgt)
     \/ (Is("Begin") /\ Begin(Ev.t) /\ UNCHANGED made /\ UNCHANGED migtgt)
     \/ (Is("Finish") /\ Finish(Ev.t) /\ UNCHANGED made /\ UNCHANGED migtgt)
     \/ (Is("UFreed") /\ Freed(Ev.t) /\ UNCHANGED made /\ UNCHANGED migtgt)
